@@ -5,6 +5,8 @@
 //                 one thread runs at a time (deterministic).  Each thread's events must equal those of its run alone.
 //   --mode free   stdin: one configuration per line.  N free-running threads, each generating every configuration in a
 //                 rotated order with its own generator and source (for ThreadSanitizer); events compared with a run alone.
+//   --mode handover stdin: one configuration per line.  spec/Handover.tla: every generator is initialised, shot and reset by
+//                 different threads (one at a time); events compared with the same stages on one thread.
 // cfg = <name>:bkg | <isotope>:<level>:<mode>[:<emin>:<emax>]
 #include <atomic>
 #include <condition_variable>
@@ -299,6 +301,137 @@ static int run_free(int nthreads, int nev)
   return 0;
 }
 
+// ------------------------------------------------------------------------------------------------ handover (spec/Handover.tla)
+// A prepared generator: configuration, deviate source and the library object(s); the three stages may run on different threads.
+struct Prepared
+{
+  GenCfg c;
+  bool mdl = false, gatest = false;
+  std::unique_ptr<vh::stream> src;
+  std::unique_ptr<bxdecay0::decay0_generator> g;
+  std::unique_ptr<bxdecay0::dbd_gA> ga;
+  std::vector<std::string> out;
+  bool failed = false;
+  void fail(const std::exception & e)
+  {
+    failed = true;
+    out.push_back(std::string("EXCEPTION ") + e.what());
+  }
+  void initialise(const GenCfg & c0, uint64_t seed)
+  {
+    c      = c0;
+    gatest = c0.txt == "GATEST";
+    mdl    = c0.txt.compare(0, 4, "MDL@") == 0;
+    if (mdl) c = parse_cfg(c0.txt.substr(4));
+    src.reset(new vh::stream(seed));
+    try {
+      if (gatest) {
+        ga.reset(new bxdecay0::dbd_gA);
+        const char * ver = std::getenv("VERIF_GA_VERSION");
+        ga->set_dataset_version(ver ? ver : ".");
+        ga->set_nuclide("Test");
+        ga->set_process(bxdecay0::dbd_gA::PROCESS_G0);
+        ga->set_shooting(bxdecay0::dbd_gA::SHOOTING_REJECTION);
+        ga->initialize();
+      } else {
+        g.reset(new bxdecay0::decay0_generator);
+        configure(*g, c);
+        if (mdl) {
+          auto op = std::make_shared<bxdecay0::momentum_direction_lock_event_op>();
+          op->set(bxdecay0::INVALID_PARTICLE, (c.txt.size() % 2) ? 0 : -1, 0.3, -0.4, 0.8, 0.6, false);
+          g->add_operation(op);
+        }
+        g->initialize(*src);
+      }
+    } catch (std::exception & e) {
+      fail(e);
+    }
+  }
+  void shoot(int nev)
+  {
+    if (failed) return;
+    try {
+      for (int i = 0; i < nev; i++) {
+        bxdecay0::event ev;
+        if (gatest) ga->shoot(*src, ev);
+        else g->shoot(*src, ev);
+        out.push_back(vh::fingerprint(ev));
+      }
+    } catch (std::exception & e) {
+      fail(e);
+    }
+  }
+  void reset()
+  {
+    try {
+      if (g) g->reset();
+      if (ga) ga->reset();
+    } catch (std::exception & e) {
+      fail(e);
+    }
+    g.reset();
+    ga.reset();
+  }
+};
+
+static void spin_barrier(std::atomic<int> & a, int n)
+{
+  a.fetch_add(1, std::memory_order_acq_rel);
+  while (a.load(std::memory_order_acquire) < n) {
+  }
+}
+
+// every configuration i: initialised by thread i % N, first half of its events shot by thread (i+1) % N, second half by
+// thread (i+2) % N, reset by thread (i+3) % N; compared with the same stages run on one thread
+static int run_handover(int nthreads, int nev)
+{
+  std::vector<GenCfg> cfgs;
+  std::string line;
+  while (std::getline(std::cin, line)) {
+    std::istringstream ls(line);
+    std::string c;
+    if (ls >> c) cfgs.push_back(parse_cfg(c));
+  }
+  size_t n = cfgs.size();
+  std::vector<Prepared> moved(n), home(n);
+  std::atomic<int> b[4];
+  for (auto & x : b) x = 0;
+  std::vector<std::thread> th;
+  for (int t = 0; t < nthreads; t++) {
+    th.emplace_back([&, t] {
+      for (int stage = 0; stage < 4; stage++) {
+        for (size_t i = 0; i < n; i++) {
+          if ((int)((i + (size_t)stage) % (size_t)nthreads) != t) continue;
+          if (stage == 0) moved[i].initialise(cfgs[i], 4242 + 17 * i);
+          else if (stage == 1 || stage == 2) moved[i].shoot(nev);
+          else moved[i].reset();
+        }
+        spin_barrier(b[stage], nthreads);
+      }
+    });
+  }
+  for (auto & x : th) x.join();
+  long differ = 0, compared = 0, handed = 0;
+  for (size_t i = 0; i < n; i++) {
+    home[i].initialise(cfgs[i], 4242 + 17 * i);
+    home[i].shoot(nev);
+    home[i].shoot(nev);
+    home[i].reset();
+    compared += (long)home[i].out.size();
+    handed += 3;
+    if (home[i].out != moved[i].out) {
+      differ++;
+      size_t k = 0;
+      while (k < home[i].out.size() && k < moved[i].out.size() && home[i].out[k] == moved[i].out[k]) k++;
+      printf("{\"differ\":\"%s\",\"first\":%zu,\"got\":\"%s\"}\n", cfgs[i].txt.c_str(), k,
+             vh::json_escape(k < moved[i].out.size() ? moved[i].out[k].substr(0, 120) : std::string("-")).c_str());
+    }
+  }
+  printf("{\"phase\":\"handover\",\"threads\":%d,\"configs\":%zu,\"events_compared\":%ld,\"handovers\":%ld,\"differ\":%ld}\n", nthreads, n, compared,
+         handed, differ);
+  return 0;
+}
+
 int main(int argc, char ** argv)
 {
   std::string mode = "baton";
@@ -310,5 +443,6 @@ int main(int argc, char ** argv)
     else if (a == "--threads") nthreads = std::atoi(argv[++i]);
   }
   if (mode == "baton") return run_baton(nev);
+  if (mode == "handover") return run_handover(nthreads, nev);
   return run_free(nthreads, nev);
 }
